@@ -41,6 +41,19 @@ def generate(rng, tier, seed):
                 if rng.random() < 0.3:
                     scn.append(["spurious"])
                 cases.append({"scn": scn, "sched": sched, "items": items, "en": list(en) if en != "c" else "c", "pipe": sx.dumps(p)})
+    # the pending future is polled again with a different waker before the source ends (a select/join-style parent):
+    # the LAST waker handed in must be the one woken
+    for _ in range(30 if thorough else 8):
+        items = [rng.choice([1, 2, 3]) for _ in range(rng.randrange(1, 4))]
+        en = rng.choice(["c", ("e", 5)])
+        last = ["complete", 0] if en == "c" else ["error", 0, en[1]]
+        base = seed * 1000 + rng.randrange(1000)
+        for sched in (["random", base, 60 if thorough else 25], ["pct", 3, base, 30 if thorough else 10]):
+            scn = ["conc", ["objects", ["subject", "replay"], ["tovec", ["hot", 0]]], ["init"],
+                   ["threads", ["w", ["block_on", 0]], ["r", ["repoll", 0], ["yield"], ["repoll", 0]],
+                    ["p", ["sleep", 1]] + [["next", 0, v] for v in items] + [["repoll", 0], last]],
+                   ["fini"], ["sched"] + sched]
+            cases.append({"scn": scn, "sched": sched, "items": items, "en": list(en) if en != "c" else "c", "pipe": "(hot replay)+repoll", "repoll": True})
     # time-based sources
     for k in ([1, 2, 3] if thorough else [2]):
         p = ["op", "take", [k], ["interval", 10]]
@@ -109,7 +122,7 @@ def judge(cases, runs):
             if key not in mset:
                 viol.append((ci, sd, "result %s differs from what the source emitted %s %s" % (key, case["items"], case["en"])))
                 continue
-            if not spurious and polls not in mpolls[key]:
+            if not spurious and not case.get("repoll") and polls not in mpolls[key]:
                 unshown.append((ci, sd, "result %s after %d polls; the model allows %s" % (key, polls, sorted(mpolls[key]))))
             reached.add((ci, "(%d %s)" % (polls, key[1:-1])))
             if polls >= 2:
